@@ -193,12 +193,29 @@ def run(ctx, out):
                     opened.add(t)
             h.append(x)
         cases.append(mk(tuple(h), mx))
+    # tokens a client may well use that are related through the wire format's own constants and conventions: the BMP-60 prefix "AC" that is
+    # put in front of every token (a token that itself starts with it, the rest of it, the prefix alone, the empty token), letter case,
+    # trailing blank / NUL (the text codec strips trailing NULs on the way back — the map must not). Each is its own key.
+    n_conf = 0
+    for fam in (["ACa", "a", "AC"], ["", "AC", "ACAC"], ["a", "A", "a "], ["a", "a\0", "\0a"]):
+        fl = []
+        for t in fam:
+            fl.append((f"begin:{tok(t)}", "0622", begin_out["ok1"]))
+            fl.append((f"commit:{tok(t)}:100", "0623", fin_out["ok"]))
+            fl.append((f"cancel:{tok(t)}", "0625", can_out["ok"]))
+        fh = list(itertools.product(fl, repeat=3)) + list(itertools.product(fl, repeat=2))
+        if not thorough:
+            fh = [h for h in fh if len(h) == 2] + rng.sample([h for h in fh if len(h) == 3], 250)
+        for h in fh:
+            cases.append(mk(h, rng.choice([2, 3])))
+            n_conf += 1
+    out.count("confusable-token histories", n_conf)
     ops, impl = run_histories(ctx, out, cases, "begin/commit/cancel history")
     # the same histories against a slow but talking terminal (14 virtual seconds before every packet): nothing may change
     slow = rng.sample(cases, min(len(cases), 600 if thorough else 150))
     sops, _ = run_histories(ctx, out, slow, "begin/commit/cancel history, slow terminal", gap=14)
     out.count("slow-terminal", len(sops))
     out.rule = (f"call histories over three tokens (one short, two long ones sharing a 24-character prefix) x terminal outcomes (begin: receipt issued / aborted / completed without receipt / receipt reported and then aborted; commit, cancel: completed / aborted / aborted naming the receipt number of the first or second reservation of the history): all histories up to depth 2 x max 0..3, "
-                f"{'all' if thorough else '5000 sampled'} of depth {depth}, random walks to depth 40; the real Feig client against the simulated terminal must return exactly the results of the abstract token map and send exactly "
+                f"{'all' if thorough else '5000 sampled'} of depth {depth}, random walks to depth 40; histories over token families related through the wire format (the BMP-60 prefix AC: ACa / a / AC / empty / ACAC; letter case; trailing blank or NUL); the real Feig client against the simulated terminal must return exactly the results of the abstract token map and send exactly "
                 "the specified packets (refused calls: none); implementation = model = abstract specification. non-trivial = distinct (max, history, outcomes)")
     out.samples = [ops[5][:400], {"op": ops[-1][:200], "impl": impl[-1][:300]}]
